@@ -92,12 +92,24 @@ func (r *Run) Hist(name, bucket string) {
 
 func (r *Run) Sample(v interface{}) {
 	if len(r.Res.Samples) < 4 {
-		r.Res.Samples = append(r.Res.Samples, v)
+		r.Res.Samples = append(r.Res.Samples, jsonSafe(v))
 	}
+}
+
+// jsonSafe returns v if encoding/json can carry it, else a %+v rendering (NaN / Inf are not JSON numbers)
+func jsonSafe(v interface{}) interface{} {
+	if v == nil {
+		return nil
+	}
+	if _, err := json.Marshal(v); err != nil {
+		return fmt.Sprintf("%+v", v)
+	}
+	return v
 }
 
 func (r *Run) Fail(f Failure) {
 	if len(r.Res.Failures) < 50 {
+		f.Input, f.Observed, f.Required = jsonSafe(f.Input), jsonSafe(f.Observed), jsonSafe(f.Required)
 		r.Res.Failures = append(r.Res.Failures, f)
 	}
 }
